@@ -81,6 +81,114 @@ impl Seek for FragReader {
 	}
 }
 
+// ---------------------------------------------------------------------------------------------
+// A reader that follows a schedule of steps, exactly as Model/Frag.v `fread`: g<k> delivers at most max(1,k)
+// bytes, i is Err(Interrupted), f is another I/O error; every read() call consumes one entry; when the schedule is
+// exhausted reads are unfragmented.
+#[derive(Clone, Copy)]
+pub enum Step {
+	Give(usize),
+	Interrupt,
+	Fault,
+}
+pub struct SchedReader {
+	data: Vec<u8>,
+	pos: usize,
+	sched: Vec<Step>,
+	k: usize,
+}
+impl SchedReader {
+	pub fn new(data: Vec<u8>, sched: Vec<Step>) -> Self {
+		SchedReader { data, pos: 0, sched, k: 0 }
+	}
+	pub fn consumed(&self) -> usize {
+		self.pos.min(self.data.len())
+	}
+	pub fn left(&self) -> usize {
+		self.sched.len() - self.k.min(self.sched.len())
+	}
+}
+impl Read for SchedReader {
+	fn read(&mut self, buf: &mut [u8]) -> io::Result<usize> {
+		let rem = self.data.len().saturating_sub(self.pos);
+		let mut n = buf.len().min(rem);
+		if self.k < self.sched.len() {
+			let st = self.sched[self.k];
+			self.k += 1;
+			match st {
+				Step::Give(c) => n = n.min(c.max(1)),
+				Step::Interrupt => return Err(io::Error::new(io::ErrorKind::Interrupted, "interrupted")),
+				Step::Fault => return Err(io::Error::new(io::ErrorKind::Other, "injected fault")),
+			}
+		}
+		buf[..n].copy_from_slice(&self.data[self.pos..self.pos + n]);
+		self.pos += n;
+		Ok(n)
+	}
+}
+impl Seek for SchedReader {
+	fn seek(&mut self, pos: SeekFrom) -> io::Result<u64> {
+		let np: i128 = match pos {
+			SeekFrom::Start(p) => p as i128,
+			SeekFrom::Current(d) => self.pos as i128 + d as i128,
+			SeekFrom::End(d) => self.data.len() as i128 + d as i128,
+		};
+		if np < 0 {
+			return Err(io::Error::new(io::ErrorKind::InvalidInput, "negative seek"));
+		}
+		self.pos = (np as usize).min(self.data.len() + (1 << 40));
+		Ok(np as u64)
+	}
+}
+pub fn parse_sched(s: &str) -> Vec<Step> {
+	if s == "-" {
+		return vec![];
+	}
+	s.split(',')
+		.map(|x| match x.as_bytes()[0] {
+			b'i' => Step::Interrupt,
+			b'f' => Step::Fault,
+			_ => Step::Give(x[1..].parse().unwrap()),
+		})
+		.collect()
+}
+
+// rexact: <hex> <sched> <sizes>   std::io::Read::read_exact calls of the given sizes over the schedule
+fn m_rexact(f: &[String]) -> String {
+	let data = unhex(&f[0]);
+	let mut r = SchedReader::new(data, parse_sched(&f[1]));
+	let mut out = String::new();
+	for (i, n) in parse_chunks(&f[2]).into_iter().enumerate() {
+		let mut buf = vec![0u8; n];
+		match r.read_exact(&mut buf) {
+			Ok(()) => writeln!(out, "r{}=ok:{} pos={} left={}", i, hex(&buf), r.consumed(), r.left()).unwrap(),
+			Err(_) => writeln!(out, "r{}=err pos={} left={}", i, r.consumed(), r.left()).unwrap(),
+		}
+	}
+	out
+}
+
+// readsched: <hex> <opts> <sched>   slippi::read over the schedule (interrupts and faults included)
+fn m_readsched(f: &[String]) -> String {
+	let data = unhex(&f[0]);
+	let opts = slp_opts(&f[1]);
+	let total = data.len();
+	let mut r = SchedReader::new(data, parse_sched(&f[2]));
+	let mut out = String::new();
+	match slippi::read(&mut r, Some(&opts)) {
+		Ok(g) => {
+			writeln!(out, "OK").unwrap();
+			writeln!(out, "consumed={}/{}", r.consumed().min(total), total).unwrap();
+			dump_game(&mut out, &g);
+		}
+		Err(e) => {
+			writeln!(out, "{}", err_class(&e)).unwrap();
+			writeln!(out, "consumed={}/{}", r.consumed().min(total), total).unwrap();
+		}
+	}
+	out
+}
+
 fn parse_chunks(s: &str) -> Vec<usize> {
 	if s == "-" {
 		vec![]
@@ -855,6 +963,8 @@ pub fn dispatch(mode: &str, f: &[String]) -> String {
 		"norm" => m_norm(f),
 		"normstr" => m_normstr(f),
 		"xxh" => m_xxh(f),
+		"rexact" => m_rexact(f),
+		"readsched" => m_readsched(f),
 		"view" => crate::modes_view::m_view(f),
 		"arrow" => crate::modes_view::m_arrow(f),
 		_ => panic!("unknown mode {}", mode),
